@@ -17,6 +17,10 @@ import re
 
 from harness.fw import Check, Driver, ToolFailure, VERIF
 
+# hand-modelled functions (Model/TypeName.lean); a changed AST escalates the search (ck.pins_changed)
+PINS = [("androguard/decompiler/util.py", "get_type"),
+        ("androguard/core/dex/__init__.py", "get_type")]
+
 PRIMS = {"Z": "boolean", "B": "byte", "S": "short", "C": "char", "I": "int", "J": "long", "F": "float", "D": "double"}
 
 
@@ -177,6 +181,7 @@ def e2e_sources(descs):
 
 # ------------------------------------------------------------------ run
 def run(ck: Check):
+    ck.pins_changed(PINS)
     ck.run_gen("typedesc")
     ck.prove(exes=["drv_C24"])
     drv = Driver("drv_C24")
@@ -188,7 +193,8 @@ def run(ck: Check):
                "distinct = distinct well-formed descriptor; non-trivial = class or array type")
     descs = corpus_cases() + list(FIXED)
     descs += ["[" * k + p for p in ["V"] + list(PRIMS) for k in range(5)]
-    n = 30000 if ck.quick else 600000
+    big = (not ck.quick) or getattr(ck, "escalated", False)
+    n = 600000 if big else 30000
     for _ in range(n):
         d = rand_wf(rng)
         descs.append(d)
@@ -262,7 +268,7 @@ def run(ck: Check):
              dist=dict(dist, well_formed=nwf))
 
     # ---- S: end to end through the DEX parser and DvClass.get_source
-    ne = 250 if ck.quick else 3000
+    ne = 3000 if big else 250
     pool = [d for d in dict.fromkeys(corpus_cases() + FIXED + [rand_wf(rng) for _ in range(ne)])
             if spec_names(d) and d != "V" and " " not in d and d.count("[") < 200 and all(ord(c) < 0xD800 or 0xE000 <= ord(c) for c in d)]
     try:
